@@ -27,6 +27,7 @@ CONSTANTS OpenFlags,          \* set of OpenFile flag encodings used by generate
           AttrVals,           \* values k>=1 for Chmod/Chown/Chtimes
           MaxContent,         \* bound on Len(content)
           Shape(_, _, _),     \* (epoch, archive no, protos) -> arranged+sized protos
+          RestartKinds,       \* kinds of process restarts generated as calls: 0 = index lost (rebuilt from the tape), 1 = index kept; {} = none
           Handles,            \* handle ids for calls that keep a file open across other calls ({} = none)
           HandleFlags         \* OpenFile flag encodings used by generated HOpen calls
 
@@ -147,8 +148,12 @@ HStep(c) ==
               IN HOut("ok", [ref EXCEPT ![hs[h].path] = node],
                       << <<P("UPDATE", hs[h].path, hs[h].path, TRUE, node)>> >>, after)
 
+\* "Restart": the process ends (buffered handle writes are lost with it) and a new one constructs the
+\* filesystem over the same tape - with the index it left behind (k = 1) or without one, so that Initialize
+\* rebuilds it from the tape alone (k = 0).  Nothing is appended; the calls that follow run on that index.
 Outcome(c) ==
-  IF c.op \in HandleOps THEN HStep(c)
+  IF c.op = "Restart" THEN HOut("ok", ref, << >>, << >>)
+  ELSE IF c.op \in HandleOps THEN HStep(c)
   ELSE LET rr == RefStep(ref, c) IN HOut(rr.res, rr.ref, IF rr.res = "ok" THEN Archives(ref, c, rr.ref) ELSE << >>, hs)
 
 Obs(c, res, interr, napp) == [call |-> c, res |-> res, interr |-> interr, napp |-> napp]
@@ -160,7 +165,8 @@ Do(c) ==
        /\ UNCHANGED <<tape, tend, index, ref, narch, epoch, hs>>
   ELSE LET st == Run([tape |-> tape, tend |-> tend, index |-> index, narch |-> narch, err |-> FALSE], rr.archs)
        IN /\ Len(st.tape) <= MaxTape
-          /\ tape' = st.tape /\ tend' = st.tend /\ index' = st.index /\ narch' = st.narch
+          /\ tape' = st.tape /\ tend' = st.tend /\ narch' = st.narch
+          /\ index' = (IF c.op = "Restart" /\ c.k = 0 THEN Replay(EmptyIndex, tape).idx ELSE st.index)
           /\ ref' = rr.ref
           /\ hs' = rr.hs
           /\ last' = Obs(c, "ok", st.err, Len(st.tape) - Len(tape))
@@ -195,6 +201,7 @@ Calls ==
   \cup {C("WriteFile", p, Root, ch, 0) : p \in Paths, ch \in Chunks}
   \cup {C("Append", p, Root, ch, 0) : p \in {x \in Paths : x \in DOMAIN ref /\ Len(ref[x].content) < MaxContent}, ch \in Chunks}
   \cup {C("Rename", p, q, "", 0) : p \in Paths \ {Root}, q \in Paths \ {Root}}
+  \cup {C("Restart", Root, Root, "", k) : k \in RestartKinds}
   \* OpenFile with a set of flag combinations, with and without a write
   \cup {C("Open", p, Root, ch, k) : p \in Paths \ {Root}, ch \in Chunks \cup {""}, k \in OpenFlags}
   \* batched Operations.Update(replace): members that all exist as regular files
